@@ -44,6 +44,10 @@ func decodeC18(raw []byte) c18Case {
 var restKey = []byte("12345678901234567890")
 
 func restInit() {
+	// the service runs in a zone with daylight saving: an answer must depend on the instant, never on wall-clock fields
+	if z, err := time.LoadLocation("America/New_York"); err == nil {
+		time.Local = z
+	}
 	if restKnownSet == nil {
 		restKnownSet = map[string]bool{}
 		for _, n := range otp.ListSuites() {
@@ -175,7 +179,7 @@ var (
 	algoVals   = []any{nil, "SHA1", "SHA256", "SHA512", "sha1", "MD5"}
 	periodVals = []any{nil, 0, 1, 30, 60}
 	ctrVals    = []any{nil, 0, 1, 7, uint64(1) << 31, uint64(1) << 32, uint64(1) << 53, uint64(1) << 63, ^uint64(0)}
-	tsVals     = []any{1, 59, 1111111109, uint64(1) << 31, uint64(1) << 32, uint64(1) << 53, uint64(1) << 62}
+	tsVals     = []any{1, 59, 1111111109, 1699162200, 1699165800, 1678602600, 1678606200, uint64(1) << 31, uint64(1) << 32, uint64(1) << 53, uint64(1) << 62} // incl. both passes of a repeated DST hour and both sides of a skipped one (New York)
 )
 
 func ocraInputFor(sh shape, k int) map[string]any {
@@ -438,6 +442,7 @@ func startServer() (*liveServer, error) {
 	l.Close()
 	cmd := exec.Command(bin, "-serve", addr)
 	cmd.Stdout, cmd.Stderr = nil, nil
+	cmd.Env = append(os.Environ(), "TZ=America/New_York") // a zone with daylight saving (if the host has zone data; else UTC)
 	if err := cmd.Start(); err != nil {
 		return nil, err
 	}
